@@ -574,3 +574,29 @@ pub fn dump_fn_items<'tcx>(tcx: TyCtxt<'tcx>, out: &mut String) {
     }
     out.push_str(&list(&items));
 }
+
+/// Names exported at the crate root (including re-exports), with what they resolve to.
+pub fn dump_exports<'tcx>(tcx: TyCtxt<'tcx>, out: &mut String) {
+    let mut items = Vec::new();
+    let root = rustc_span::def_id::CRATE_DEF_ID;
+    for ch in tcx.module_children_local(root).iter() {
+        let (kind, def) = match ch.res {
+            rustc_hir::def::Res::Def(k, d) => (format!("{:?}", k), tcx.def_path_str(d)),
+            other => (format!("{:?}", other), String::new()),
+        };
+        let krate = match ch.res {
+            rustc_hir::def::Res::Def(_, d) => tcx.crate_name(d.krate).as_str().to_string(),
+            _ => String::new(),
+        };
+        items.push(format!(
+            "{{\"name\":{},\"kind\":{},\"def\":{},\"krate\":{},\"public\":{},\"reexport\":{}}}",
+            esc(ch.ident.name.as_str()),
+            esc(&kind),
+            esc(&def),
+            esc(&krate),
+            ch.vis.is_public(),
+            !ch.reexport_chain.is_empty()
+        ));
+    }
+    out.push_str(&list(&items));
+}
